@@ -5,7 +5,7 @@
    reachable [s = exec (init a) os], the interrupted call [o], any processing order [order] of its directory
    cleanups and any marker index [k]. The restart theorems hold for EVERY image, reachable or not. *)
 From Coq Require Import List Arith Bool.
-From SV Require Import Model.Snap Model.SnapCrash Proofs.SnapBase Proofs.SnapPrim Proofs.SnapInv Proofs.Snap Proofs.SnapCrash.
+From SV Require Import Model.Snap Model.SnapCrash Proofs.SnapBase Proofs.SnapPrim Proofs.SnapInv Proofs.Snap Proofs.SnapCrash Proofs.SnapRestart.
 Import ListNotations.
 
 (* Restart fails exactly when restore is enabled, invalid mounts are not allowed, and some snapshot recorded
@@ -95,6 +95,45 @@ Example C09_first_create_crash_reclaimed :
     snd (step (fst (restart false false [] img)) (Cleanup [])) = ROk /\
     dirs (fst (step (fst (restart false false [] img)) (Cleanup []))) = [].
 Proof. eexists. vm_compute. repeat split. Qed.
+
+(* Restored mounts are unique: after the restart of any crash image of a reachable state (whatever the result),
+   no mountpoint is registered twice — together with C09_restart_state: every recorded remote snapshot whose Mount
+   succeeded is mounted EXACTLY once. *)
+Theorem C09_restored_mounts_unique :
+  forall a os o order k code img nr allow mbad s' ok,
+    nth_error (crash_points order (exec (init a) os) o) k = Some (code, img) ->
+    restart nr allow mbad img = (s', ok) ->
+    NoDup (map fst (mounts s')) /\ forall id, mount_count s' id <= 1.
+Proof. exact crash_restart_unique. Qed.
+Print Assumptions C09_restored_mounts_unique.
+
+(* "Usable or removable": in the restarted snapshotter every snapshot without children can be removed (the call
+   returns without error and the name is gone), under any Unmount failures ... *)
+Theorem C09_restarted_snapshots_removable :
+  forall a os o order k code img nr allow mbad s' n i ubad,
+    nth_error (crash_points order (exec (init a) os) o) k = Some (code, img) ->
+    restart nr allow mbad img = (s', true) ->
+    lookup (meta s') n = Some i -> has_child (meta s') n = false ->
+    snd (step s' (Remove n ubad)) = ROk /\ lookup (meta (fst (step s' (Remove n ubad)))) n = None.
+Proof. exact restarted_removable. Qed.
+Print Assumptions C09_restarted_snapshots_removable.
+
+(* ... and, once the one Cleanup has run, every committed snapshot can be used as a parent: a Prepare of a fresh key
+   on top of it returns mounts, or Unavailable when a connectivity Check of its chain fails — never another error
+   (before the Cleanup the first Prepare may collide once with the directory an interrupted createSnapshot renamed
+   into place; the model and the harness cover that case, corpus "crash between rename and commit"). *)
+Theorem C09_restarted_committed_usable_as_parent :
+  forall a os o order k code img nr allow mbad s' ubad key n i l cbad, let s := exec (init a) os in
+    closed s = false ->
+    nth_error (crash_points order s o) k = Some (code, img) ->
+    restart nr allow mbad img = (s', true) ->
+    (nr = false \/ is_close o = false) ->
+    let s2 := fst (step s' (Cleanup ubad)) in
+    lookup (meta s2) n = Some i -> i_kind i = KCommitted -> lookup (meta s2) key = None -> l_target l = None ->
+    (exists m, snd (step s2 (Prepare key (Some n) l true cbad)) = RMounts m) \/
+    snd (step s2 (Prepare key (Some n) l true cbad)) = RErr EUnavail.
+Proof. exact restarted_usable. Qed.
+Print Assumptions C09_restarted_committed_usable_as_parent.
 
 (* Non-vacuity: remote chain k1 <- k2; crash of a third Prepare-with-target right after its backend Mount, before
    the internal commit (marker 5): the image holds the new active snapshot without remote mark; a strict restart
